@@ -28,6 +28,11 @@ type qLogReader struct {
 
 	// currentFile is the index of the current file.
 	currentFile int
+
+	// onRecord is true if the last call to seekTS has positioned the reader at
+	// the record with the requested timestamp, as opposed to the start of the
+	// log.
+	onRecord bool
 }
 
 // newQLogReader initializes a qLogReader instance with the specified files.
@@ -64,6 +69,8 @@ func newQLogReader(ctx context.Context, logger *slog.Logger, files []string) (*q
 // timestamp.  If the record is found, it sets qLogReader's position to point
 // to that line, so that the next ReadNext call returned this line.
 func (r *qLogReader) seekTS(ctx context.Context, timestamp int64) (err error) {
+	r.onRecord = false
+
 	for i := len(r.qFiles) - 1; i >= 0; i-- {
 		q := r.qFiles[i]
 		_, _, err = q.seekTS(ctx, r.logger, timestamp)
@@ -89,6 +96,7 @@ func (r *qLogReader) seekTS(ctx context.Context, timestamp int64) (err error) {
 		// Update currentFile only, position is already set properly in
 		// qLogFile.
 		r.currentFile = i
+		r.onRecord = true
 
 		return nil
 	}
